@@ -758,6 +758,8 @@ def _substitute_once(func, ref_locals) -> bool:
                 opq = opq - {n.target.id for n in ast.walk(func) if isinstance(n, ast.For) and isinstance(n.target, ast.Name) and isinstance(n.iter, ast.Call)
                              and isinstance(n.iter.func, ast.Name) and n.iter.func.id == "range"}
                 one_next = len(span) == 1 and isinstance(span[0], (ast.Expr, ast.Assign, ast.AugAssign, ast.Return)) and len(uses) == 1
+                if not one_next and len(span) == 1 and len(uses) == 1 and isinstance(span[0], ast.If) and any(n is uses[0] for n in ast.walk(span[0].test)):
+                    one_next = True         # used once, in the test of the very next `if`: evaluated before anything in its arms runs
                 fresh_scalar = purity == "pure" and isinstance(expr, (ast.BinOp, ast.Compare, ast.BoolOp, ast.UnaryOp, ast.IfExp))
                 if v in mp or (v in opq and not fresh_scalar):
                     continue
